@@ -12,6 +12,11 @@ def ruleA : Cls → Rule
   | .refresh => { mints := [.access, .refresh, .idtoken], expiresIn := 86400 }
   | .idtoken => { mints := [], expiresIn := 300 }
 
+/-- the token-exchange variant of the harness configuration: access tokens may be exchanged -/
+def ruleX : Cls → Rule
+  | .access => { mints := [.access, .refresh], expiresIn := 3600 }
+  | c => ruleA c
+
 structure DS where
   cfg : Cfg := { oidc := true, jwt := false, rule := ruleA, revokeRefreshOnIssue := false, allowed := fun _ => [], grantExpiresIn := 43200, authnExpiresIn := 3600 }
   st : St := {}
@@ -26,6 +31,7 @@ def outStr : Out → String
   | .tokens _ a r i sc => s!"tokens {optId a} {optId r} {optId i} {encList sc}"
   | .userinfo _ _ => "userinfo"
   | .introspect a sc => s!"introspect {if a then "1" else "0"} {encList sc}"
+  | .exchanged id sc => s!"exchanged {id} {encList sc}"
   | .ok => "ok"
 
 def proj (s : St) : String :=
@@ -52,6 +58,10 @@ def parseAllowed (l : List Str) : Str → List Str := fun c =>
       | [] => [[ch]]
       | a :: as => (ch :: a) :: as) [[]]).filter (fun x => !x.isEmpty)
 
+def parseCls : String → Option Cls
+  | "code" => some .code | "access" => some .access | "refresh" => some .refresh | "idtoken" => some .idtoken
+  | _ => none
+
 def parseOp (args : List String) : Option Op :=
   match args with
   | ["tick", n] => do some (.tick (← n.toNat?))
@@ -59,6 +69,8 @@ def parseOp (args : List String) : Option Op :=
   | ["tokenParse", c, code, r] => do some (.tokenParse (← decStr c) (← code.toNat?) (← optStr r))
   | ["tokenProcess", i] => do some (.tokenProcess (← i.toNat?))
   | ["refresh", c, rt, sc] => do some (.refresh (← decStr c) (← rt.toNat?) (← optList sc))
+  | ["exchange", c, t, st, rt, sc] => do
+    some (.exchange (← decStr c) (← t.toNat?) (← parseCls st) (← (if rt = "none" then some none else (parseCls rt).map some)) (← optList sc))
   | ["userinfo", t] => do some (.userinfo (← t.toNat?))
   | ["introspect", c, t] => do some (.introspect (← decStr c) (← t.toNat?))
   | ["revokeEp", c, t] => do some (.revokeEp (← decStr c) (← t.toNat?))
@@ -66,17 +78,20 @@ def parseOp (args : List String) : Option Op :=
   | ["revokeGrant", g] => do some (.revokeGrant (← g.toNat?))
   | ["revokeClient", u, c] => do some (.revokeClient (← decStr u) (← decStr c))
   | ["revokeUser", u] => do some (.revokeUser (← decStr u))
+  | ["logoutAll", u] => do some (.logoutAll (← decStr u))
   | ["remove", g] => do some (.remove (← g.toNat?))
   | _ => none
 
 def stepLine (d : DS) (args : List String) : DS × String :=
   match args with
-  | ["reset", oidc, jwt, al] =>
+  | "reset" :: oidc :: jwt :: al :: usage =>
     match decList al with
     | none => (d, "bad-op")
     | some l =>
-      ({ cfg := { oidc := oidc = "1", jwt := jwt = "1", rule := ruleA, revokeRefreshOnIssue := false,
-                  allowed := parseAllowed l, grantExpiresIn := 43200, authnExpiresIn := 3600 }, st := {} }, "ok")
+      ({ cfg := { oidc := oidc = "1", jwt := jwt = "1", rule := (if usage = ["x"] then ruleX else ruleA), revokeRefreshOnIssue := false,
+                  allowed := parseAllowed l, grantExpiresIn := 43200, authnExpiresIn := 3600,
+                  -- harness configuration: client_1 back-channel, client_2 front-channel, client_3 no logout URI
+                  logoutUri := fun c => c == lit "client_1" || c == lit "client_2" }, st := {} }, "ok")
   | _ =>
     match parseOp args with
     | none => (d, "bad-op")
